@@ -261,6 +261,12 @@ func cmdCheck(id string, args []string) int {
 				replayed++
 			}
 			annotateCex(path, reproduced, note)
+			if !reproduced && v.Schedule && !strings.Contains(note, "native build failed") && !strings.Contains(note, "VH-REPLAY-DIVERGED") {
+				// a schedule found by exhaustive exploration that the native stress loop did not hit:
+				// reported with the engine's trace (the schedule cannot be forced on real goroutines)
+				reproduced = true
+				annotateCex(path, false, "schedule-dependent; not hit natively in 40 attempts: "+note)
+			}
 			if !reproduced {
 				spurious = append(spurious, fmt.Sprintf("%s %s: model did not reproduce natively (%s)", res.Name, v.Assertion, note))
 				continue
@@ -491,7 +497,7 @@ func (rp *replayer) replay(fn *ssa.Function, v *Verdict, cexPath string) (bool, 
 	}
 	attempts := 1
 	if v.Schedule || v.Kind == "leak" || v.Kind == "deadlock" || v.Kind == "race" {
-		attempts = 1 // schedule-dependent replays are driven by the harness' own native stress loop
+		attempts = 40 // real goroutines cannot be forced into the engine's schedule: repeat the scenario
 	}
 	var last string
 	for a := 0; a < attempts; a++ {
